@@ -78,14 +78,13 @@ static void gen_flat(int seedset, const std::string& vtk, const std::string& xml
     for (int mask = 1; mask < 8; mask++) for (const char* c : {"0", "5", "-5", "1048576"}) { std::string v = vtk; for (long i = 3 * np - 1; i >= 0; i--) if (mask >> (i % 3) & 1) { const TokSpan& t = head[3 + i]; v = v.substr(0, t.b) + c + v.substr(t.e); }
         Case cs; cs.seedset = seedset; cs.file = "vtk"; cs.kind = std::string("all-points-share-the-value-") + c; cs.where = std::string("coordinates-") + (mask & 1 ? "x" : "") + (mask & 2 ? "y" : "") + (mask & 4 ? "z" : ""); cs.xml = xml; cs.vtk = v; out.push_back(cs); } }
 
-// scaled geometry: every point multiplied by (sx, sy, sz).  The factors are chosen so that the space partitioning grids of the initial triangulation would need 2^32 voxels or more in
-// total while each dimension stays below 2^32 (the count must be formed without wrapping), or a handful of voxels only; a cell of ordinary proportions in between would simply be
-// triangulated for minutes and is not offered.
-static void gen_scaled(int seedset, const std::string& vtk, const std::string& xml, std::vector<Case>& out) {
-    size_t kw = vtk.find("POINTS"); if (kw == std::string::npos) return; auto head = tokens_of(vtk, kw); if (head.size() < 3) return; const long np = atol(vtk.substr(head[1].b, head[1].e - head[1].b).c_str()); if ((long)head.size() < 3 + 3 * np) return;
-    const double F[][3] = {{512, 512, 512}, {2048, 2048, 256}, {65536, 65536, 1}, {1, 65536, 65536}, {1e6, 1e6, 1e6}, {1e-3, 1e-3, 1e-3}, {3e9, 1, 1}};
-    for (auto& f : F) { std::string v = vtk; for (long i = 3 * np - 1; i >= 0; i--) { const TokSpan& t = head[3 + i]; double x = strtod(vtk.substr(t.b, t.e - t.b).c_str(), nullptr) * f[i % 3]; char b[40]; snprintf(b, sizeof b, "%.9g", x); v = v.substr(0, t.b) + b + v.substr(t.e); }
-        char nm[80]; snprintf(nm, sizeof nm, "points-scaled-by-(%g,%g,%g)", f[0], f[1], f[2]); Case cs; cs.seedset = seedset; cs.file = "vtk"; cs.kind = nm; cs.where = "coordinates"; cs.xml = xml; cs.vtk = v; out.push_back(cs); } }
+// needles: one thin closed tetrahedron lying along the space diagonal of a box of L x L x L/2 length units (little area, so few sample points, but a bounding box that needs
+// (4L)^2 * 2L voxels of size l_min = 0.25): L = 512 needs exactly 2^32 voxels and L = 1024 needs 2^35 while every dimension stays far below 2^32 (the total must be formed without
+// wrapping and refused); L = 20 is an ordinary small grid.  The initial triangulation is on.
+static void gen_needles(int seedset, const std::string& xml, std::vector<Case>& out) {
+    for (double L : {20.0, 512.0, 1024.0}) for (int sgn : {1, -1}) { std::ostringstream o; o << "# vtk DataFile Version 4.2\nvtk output\nASCII\nDATASET UNSTRUCTURED_GRID\nPOINTS 4 float\n"; const double e = 0.3, s = sgn;
+        o << "0 0 0 " << s * L << " " << s * L << " " << s * L / 2 << " " << s * (L + e) << " " << s * L << " " << s * L / 2 << " " << s * L << " " << s * (L + e) << " " << s * L / 2 << "\n\nCELLS 1 18\n17 4 3 0 2 1 3 0 1 3 3 0 3 2 3 1 2 3\n\nCELL_TYPES 1\n42\n\nCELL_DATA 1\nFIELD FieldData 1\ncell_type_id 1 1 int\n0\n";
+        char nm[80]; snprintf(nm, sizeof nm, "needle-along-the-diagonal-of-a-box-of-%g-units%s", L, sgn < 0 ? "-at-negative-coordinates" : ""); Case cs; cs.seedset = seedset; cs.file = "vtk"; cs.kind = nm; cs.where = "whole-file"; cs.xml = xml; cs.vtk = o.str(); out.push_back(cs); } }
 // very long tokens: a token replaced by a run of N digits / letters / dots.  Parsers that recurse or allocate per character of a token show it here.
 static void gen_long_tokens(int seedset, const std::string& vtk, const std::string& xml, bool thorough, std::vector<Case>& out) {
     auto toks = tokens_of(vtk, 0); std::vector<long> NS = {1500, 20000}; if (thorough) NS.push_back(300000);
@@ -157,7 +156,7 @@ static void explore(Result& R) {
     cases.push_back({0, "none", "valid-seed", "-", v1, x1}); cases.push_back({1, "none", "valid-seed", "-", v2, x2});
     gen_vtk_faults(0, v1, x1, th, cases); gen_xml_faults(0, v1, x1, th, cases); gen_vtk_faults(1, v2, x2, th, cases, th ? 1 : 3 /* the polygonal seed runs the (slow under ASan) initial triangulation: every third token in the quick tier */);
     if (th) gen_xml_faults(1, v2, x2, false, cases);
-    gen_flat(0, v1, x1, cases); gen_flat(1, v2, x2, cases); gen_scaled(1, v2, x2, cases); gen_scaled(0, v1, x1, cases); gen_long_tokens(0, v1, x1, th, cases); if (th) gen_long_tokens(1, v2, x2, false, cases);
+    gen_flat(0, v1, x1, cases); gen_flat(1, v2, x2, cases); gen_needles(1, x2, cases); gen_long_tokens(0, v1, x1, th, cases); if (th) gen_long_tokens(1, v2, x2, false, cases);
     if (th) { // 2 deviations over a reduced alphabet: every pair of (count token of a section header, menu value)
         std::vector<Case> singles; gen_vtk_faults(0, v1, x1, false, singles); std::vector<Case> cnt; for (auto& c : singles) if (c.kind.rfind("token-replaced-by-", 0) == 0 && (c.kind == "token-replaced-by-0" || c.kind == "token-replaced-by-4294967295" || c.kind == "token-replaced-by--1")) cnt.push_back(c);
         for (size_t i = 0; i < cnt.size(); i += 7) { std::vector<Case> second; gen_vtk_faults(0, cnt[i].vtk, x1, false, second); for (size_t j = 0; j < second.size(); j += 13) { Case c = second[j]; c.kind = cnt[i].kind + "+" + c.kind; cases.push_back(c); } } }
